@@ -259,14 +259,20 @@ Theorem C05_h3_trailers_pinned_refuted :
 Proof. exact h3_trailers_pinned_refuted. Qed.
 Print Assumptions C05_h3_trailers_pinned_refuted.
 
-(* an accepted response is a well-formed response section with a :status field whose value is a
-   non-empty integer, which becomes StatusCode (one direction only: the converse would need the
-   "last :status wins" rule of the code spelled out; §4.3.2 "MUST be included" is the corollary) *)
-Theorem C05_h3_response_accept_sound_partial : forall fs h code, h3_response fs = HOk (h, code) ->
+(* updateResponseFromHeaders accepts a response iff the section is well-formed (above) and the LAST
+   :status field (§4.3.2: MUST be included; the code lets a repeated one override) has a non-empty
+   value strconv.Atoi takes - which becomes StatusCode *)
+Theorem C05_h3_response_accept_iff : forall fs,
+  (exists r, h3_response fs = HOk r) <->
+  (rfc9114_header_section_ok false fs /\ response_status fs <> [] /\ exists c, go_atoi (response_status fs) = Some c).
+Proof. exact h3_response_accept_iff. Qed.
+Print Assumptions C05_h3_response_accept_iff.
+
+Theorem C05_h3_response_accept_sound : forall fs h code, h3_response fs = HOk (h, code) ->
   rfc9114_header_section_ok false fs /\ In (hd_status h) (status_values fs) /\
   hd_status h <> [] /\ go_atoi (hd_status h) = Some code.
 Proof. exact h3_response_accept_sound. Qed.
-Print Assumptions C05_h3_response_accept_sound_partial.
+Print Assumptions C05_h3_response_accept_sound.
 
 Theorem C05_h3_response_without_status_refused : forall fs,
   status_values fs = [] -> forall r, h3_response fs <> HOk r.
